@@ -5,4 +5,5 @@ CONSTANTS Tok = {"e","dot","dd","ipfs","ipns","ipld","IPFS","cidV0","cidV1b32","
           LenRed = 6
           LenUri = 4
           LenName = 4
-INVARIANTS Emit Idempotent NoDots PrintedIsCanonical SameRootCid MutableHasNoCid UriEqualsPath NameRoundTrip TrailingSlashKept
+          LenNameW = 3
+INVARIANTS Emit Idempotent NoDots PrintedIsCanonical SameRootCid MutableHasNoCid UriEqualsPath NameRoundTrip BinaryLaws TrailingSlashKept
